@@ -426,6 +426,16 @@ impl<'a> Scan<'a> {
         if segs[0] == "std" {
             self.emit(ln, "std_path", truncate(&text, 80));
         }
+        // references into the crate's own module tree (use items, expression / type / macro paths): the
+        // edges of the module graph the portable-path closure of C16 is computed over
+        if segs[0] == "crate" && segs.len() >= 2 {
+            self.emit(ln, "crate_path", truncate(&text, 80));
+        }
+        // `super::m::..` written in a top-level module file names `crate::m::..` (inside an inline module it may
+        // name a sibling instead; recording the edge anyway is the conservative choice)
+        if segs[0] == "super" && segs.len() >= 2 && !self.file.contains('/') && segs[1] != "*" {
+            self.emit(ln, "crate_path", truncate(&format!("crate::{}", segs[1..].join("::")), 80));
+        }
         if segs.len() > 1 && segs.iter().any(|s| s == "ptr") {
             self.emit(ln, "ptr", &text);
         }
@@ -724,6 +734,27 @@ impl<'a> Scan<'a> {
                     self.emit(ln, "macro_def", &n);
                 }
                 return i + 2;
+            }
+            "crate" | "super" => {
+                // `crate::a::b` / `$crate::a::b` / `super::a::b` inside a macro body
+                let mut segs = vec!["crate".to_string()];
+                if name == "super" && self.file.contains('/') {
+                    return i + 1;
+                }
+                let mut j = i + 1;
+                while is_sep(v, j) {
+                    match as_ident(v.get(j + 2)) {
+                        Some(s) => {
+                            segs.push(s);
+                            j += 3;
+                        }
+                        None => break,
+                    }
+                }
+                if segs.len() >= 2 {
+                    self.emit(ln, "crate_path", truncate(&segs.join("::"), 80));
+                }
+                return j;
             }
             k if KEYWORDS.contains(&k) => return i + 1,
             _ => {}
